@@ -406,16 +406,24 @@ Definition ae_entries (P : params) (fail_resp : aresp) (s2 : nstate) (tr1 : list
   end.
 
 (* "Update the commit index" and the final answer *)
+(* the last index the request vouches for: its last entry, or its previous entry when it carries none *)
+Definition last_new (a : areq) : N :=
+  match aq_entries a with [] => aq_prevIdx a | es => e_idx (last_of es) end.
+
+(* fix: commit: the commit index follows min(LeaderCommit, index of the last entry of the request)
+   (and the own last index), and never moves backwards *)
 Definition ae_commit (ok_resp : aresp) (s8 : nstate) (tr8 : list ev) (fs8 : list bool) (a : areq) : outcome aresp :=
   if (0 <? aq_commit a) && (v_commit s8 <? aq_commit a) then
-    let idx := N.min (aq_commit a) (last_index s8) in
-    let s9 := set_commit s8 idx in
-    let s10 := if v_latestIdx s9 <=? idx
-               then set_committed s9 (v_latest s9) (v_latestIdx s9) else s9 in
-    match process_logs s10 idx with
-    | None => Panic s10 tr8
-    | Some (s11, tra) => Done s11 ok_resp (tr8 ++ tra) fs8
-    end
+    let idx := N.min (aq_commit a) (N.min (last_new a) (last_index s8)) in
+    if v_commit s8 <? idx then
+      let s9 := set_commit s8 idx in
+      let s10 := if v_latestIdx s9 <=? idx
+                 then set_committed s9 (v_latest s9) (v_latestIdx s9) else s9 in
+      match process_logs s10 idx with
+      | None => Panic s10 tr8
+      | Some (s11, tra) => Done s11 ok_resp (tr8 ++ tra) fs8
+      end
+    else Done s8 ok_resp tr8 fs8
   else Done s8 ok_resp tr8 fs8.
 
 (* everything after the term check / term bump / setLeader: s0 is the state at entry (for the
